@@ -241,6 +241,27 @@ def run_one(spec):
         res['quota'] = spec.get('maxtasks', 2)
         time.sleep(1.5)      # let workers that are on their way out finish exiting
         TEARDOWN.append(pool)
+    elif kind == 'closed_system':
+        # nothing goes wrong: what Props/C01.v C01_completion_when_nothing_fails and
+        # Props/C10.v C10_all_slots_back_at_the_end say about the model, on the real composition
+        pool = bp.Pool(spec.get('n', 2), putlocks=spec.get('putlocks', True), threads=True)
+        cbs = {}
+        errs = []
+        rs = []
+        for i in range(spec.get('jobs', 10)):
+            rs.append(pool.apply_async(t_double, (i,), callback=lambda v, i=i: cbs.setdefault(i, []).append(v),
+                                       error_callback=lambda e: errs.append(repr(e))))
+        deadline = time.time() + spec.get('deadline', 30)
+        while time.time() < deadline and not all(r.ready() for r in rs):
+            time.sleep(0.05)
+        time.sleep(0.3)
+        res['results'] = [outcome(r) for r in rs]
+        res['expected'] = [['ok', 2 * i] for i in range(len(rs))]
+        res['callbacks'] = [cbs.get(i, []) for i in range(len(rs))]
+        res['error_callbacks'] = errs
+        res['slots'] = [pool._putlock._value, pool._putlock._initial_value] if pool._putlock is not None else None
+        res['cache_left'] = len(pool._cache)
+        TEARDOWN.append(pool)
     else:
         res['error'] = 'unknown scenario'
     res['wall_s'] = round(time.time() - t0, 2)
